@@ -2,6 +2,7 @@
  * evidence writer, finding/replay files. */
 #include "mxv.h"
 #include <unistd.h>
+#include <fcntl.h>
 #include <signal.h>
 #include <errno.h>
 #include <sys/mman.h>
@@ -138,11 +139,26 @@ void mx_note_skipped(const char *what)
     }
 }
 
-void mx_record(const mx_result_t *r)
+/* keys travel through whitespace-separated text lines (FINDING / REPLAY / VIOLATION): no blanks inside a key */
+static void key_normalise(char *k)
+{
+    for (; *k; k++)
+    {
+        if (*k == ' ' || *k == '\t' || *k == '\n' || *k == '\r')
+        {
+            *k = '_';
+        }
+    }
+}
+
+void mx_record(const mx_result_t *r_in)
 {
     wstat_t *w = &S->w[my_slot];
     int i;
+    mx_result_t r_copy = *r_in;
+    const mx_result_t *r = &r_copy;
     const char *lab = r->outcome[0] ? r->outcome : "-";
+    key_normalise(r_copy.key);
 
     w->evals++;
     w->transitions += r->transitions ? r->transitions : 1;
@@ -336,6 +352,16 @@ void mx_parallel(long ngroups, mx_group_fn fn, void *ctx)
         if (pids[i] == 0)
         {
             my_slot = i;
+            {
+                /* workers (and the case children they fork) report through shared memory and pipes only: whatever the
+                   library prints on stdout (psAssert, psTrace) must not interleave with the master's FINDING records */
+                int dn = open("/dev/null", O_WRONLY);
+                if (dn >= 0)
+                {
+                    dup2(dn, 1);
+                    close(dn);
+                }
+            }
             for (;;)
             {
                 long g;
@@ -466,13 +492,13 @@ int mx_finish(const char *extra_json)
         if (all[i].violation == 1)
         {
             viol++;
-            printf("FINDING property=%s key=%s replay=%s what=%s\n", C->property, all[i].key, path, all[i].what);
+            printf("\nFINDING property=%s key=%s replay=%s what=%s\n", C->property, all[i].key, path, all[i].what);
             rc = 1;
         }
         else
         {
             internal++;
-            printf("INTERNAL property=%s key=%s replay=%s what=%s\n", C->property, all[i].key, path, all[i].what);
+            printf("\nINTERNAL property=%s key=%s replay=%s what=%s\n", C->property, all[i].key, path, all[i].what);
         }
     }
     if (internal)
@@ -561,8 +587,11 @@ int mx_finish(const char *extra_json)
     return rc;
 }
 
-int mx_replay_print(const mx_result_t *r)
+int mx_replay_print(const mx_result_t *r_in)
 {
+    mx_result_t r_copy = *r_in;
+    const mx_result_t *r = &r_copy;
+    key_normalise(r_copy.key);
     printf("REPLAY violation=%d key=%s trace=%016llx outcome=%s what=%s\n", r->violation,
         r->key[0] ? r->key : "-", (unsigned long long) r->trace_hash, r->outcome, r->what);
     return 0;
